@@ -911,6 +911,11 @@ def np_unique(eng, st, args, kw, node):
 
 def np_array(eng, st, args, kw, node):
     v = args[0]
+    dt = kw.get('dtype')
+    if isinstance(v, (Row, Mat)) and v.esort == BOOL and isinstance(dt, Opaque) and dt.kind == 'builtin' and dt.name == 'float':
+        r = elementwise(eng, st, lambda b: z3.If(truth(b), z3.RealVal(1), z3.RealVal(0)), v)
+        r.esort = REAL
+        return materialise(eng, st, r)
     if isinstance(v, (Ref, Row, Mat)):
         v = materialise(eng, st, v) if not isinstance(v, Ref) else v
         o = st.heap[v.oid]
